@@ -1,11 +1,12 @@
 package selftest
 
 import (
-	"sync"
 	"fmt"
 	"sort"
 	"strconv"
 	"strings"
+	"sync"
+	"time"
 
 	"github.com/lmorg/murex/zzverif/rt"
 )
@@ -197,4 +198,79 @@ func T9() {
 	q := strconv.Quote(s)
 	u, err := strconv.Unquote(q)
 	rt.Assert(err == nil && u == s, "quote roundtrip")
+}
+
+// T10: preemption-bounded scheduling: one preemption between the two critical sections of a
+// read-modify-write is enough to lose an update: violated.
+func T10() {
+	rt.PreemptBound(1)
+	n := 0
+	var mu sync.Mutex
+	var wg sync.WaitGroup
+	wg.Add(2)
+	inc := func() {
+		mu.Lock()
+		t := n
+		mu.Unlock()
+		mu.Lock()
+		n = t + 1
+		mu.Unlock()
+		wg.Done()
+	}
+	go inc()
+	go inc()
+	wg.Wait()
+	rt.Assert(n == 2, "lost update")
+}
+
+// T11: late-goroutine mode: the main goroutine "gives the other one time" with a sleep instead
+// of waiting for it; holds under the default schedule, violated when the goroutine is late.
+func T11() {
+	rt.LateGoroutine(4)
+	var mu sync.Mutex
+	var wg sync.WaitGroup
+	var log []int
+	wg.Add(1)
+	go func() {
+		mu.Lock()
+		log = append(log, 1)
+		mu.Unlock()
+		wg.Done()
+	}()
+	time.Sleep(time.Millisecond)
+	mu.Lock()
+	log = append(log, 2)
+	mu.Unlock()
+	wg.Wait()
+	rt.Assert(len(log) == 2 && log[0] == 1, "order depends on the goroutine being on time")
+}
+
+// T12: the same with a real wait: holds however late the goroutine is.
+func T12() {
+	rt.LateGoroutine(4)
+	var mu sync.Mutex
+	var wg sync.WaitGroup
+	var log []int
+	wg.Add(1)
+	go func() {
+		mu.Lock()
+		log = append(log, 1)
+		mu.Unlock()
+		wg.Done()
+	}()
+	time.Sleep(time.Millisecond)
+	wg.Wait()
+	mu.Lock()
+	log = append(log, 2)
+	mu.Unlock()
+	rt.Assert(len(log) == 2 && log[0] == 1, "order")
+}
+
+// T13: an unbounded loop that allocates: cut by the allocation/step bound, reported as a bound hit
+// (never as a pass). Checked separately by the self-test driver.
+func T13() {
+	var s []int
+	for {
+		s = append(s, len(s))
+	}
 }
